@@ -6,14 +6,15 @@ from vf import charts
 PROP = "C03"
 PART = {}
 FUNCTIONS = ["miros.hsm.HsmEventProcessor.start_at", "miros.hsm.HsmEventProcessor.init", "miros.hsm.HsmEventProcessor.trans"]
-ASSUMPTIONS = ["well-formed charts only (malformed initial transitions are C24)",
+ASSUMPTIONS = ["prior: the processor object is fresh, or was already started (in another branch / at the outermost enclosing state / at the end of the init chain) before this start_at",
+               "well-formed charts only (malformed initial transitions are C24)",
                "handlers follow the documented shape; probes answered by naming the parent"]
 OUTSIDE = ["start depth + init levels > N", "more than three consecutive initial transitions"]
 EXPLANATION = ("Bounded symbolic execution (CrossHair/z3) of the real start_at/init on a chain of symbolic depth d with up to three "
                "initial-transition hops of symbolic length below the start state. Oracle: entries of the enclosing states outermost "
                "first, entry and init of the start state, per hop the intermediate entries in order and init; every action exactly "
                "once, no exit, chart rests in the last init target (state.fun is temp.fun).")
-RULE = "one case per (d, j1, j2, j3, implicit-action mask); non-trivial = at least one initial transition or an enclosing state"
+RULE = "one case per (d, j1, j2, j3, implicit-action mask, what the processor object did before); non-trivial = at least one initial transition or an enclosing state"
 LIM = {"quick": dict(N=8, hxs=(0, 3, 7)), "thorough": dict(N=12, hxs=(0, 1, 2, 3, 4, 5, 6, 7))}
 
 
@@ -33,7 +34,10 @@ def pre(v, lim):
   return True
 
 
-def case(d, j1, j2, j3, hx):
+PRIORS = ["fresh processor", "already started in another branch", "already started at the outermost enclosing state", "already started at the init target's own chain end"]
+
+
+def case(d, j1, j2, j3, hx, prior):
   from miros.hsm import HsmEventProcessor
   parent = [i - 1 for i in range(d)]
   init = [-1] * d
@@ -49,9 +53,16 @@ def case(d, j1, j2, j3, hx):
       init.append(-1)
     init[p] = q
     p = q
+  last = p
+  parent.append(-1); init.append(-1)
+  elsewhere = len(parent) - 1
   ch = charts.Chart(parent, [charts.R_PASS] * len(parent), init, hx=hx)
   c = HsmEventProcessor()
   exp, rest = ch.oracle_start(start)
+  if prior:
+    # the same processor object was started before (start_at is legal on any processor, whatever it did before)
+    c.start_at(ch.hs[{1: elsewhere, 2: 0, 3: last}[prior]])
+    del ch.log[:]
   try:
     c.start_at(ch.hs[start])
   except Exception as ex:
@@ -65,7 +76,7 @@ def case(d, j1, j2, j3, hx):
   return PASS(nontrivial=(d > 1 or j1 > 0))
 
 
-Family(globals(), "h_start", params=[("d", 1, 12), ("j1", 0, 11), ("j2", 0, 10), ("j3", 0, 9), ("hx", 0, 7)],
+Family(globals(), "h_start", params=[("d", 1, 12), ("j1", 0, 11), ("j2", 0, 10), ("j3", 0, 9), ("hx", 0, 7), ("prior", 0, 3)],
        pre=pre, case=case, split=["hx"], tiers=LIM)
 
 
